@@ -35,6 +35,7 @@ CASES = {
     'top': Q(items=[fa(1)], top=1),
     'minmax': Q(items=[agg('MIN', 'a1', lambda e: e.a(1), 'min'), agg('MAX', 'a2', A2, 'max'), Item('max(a1, a2)', lambda e: max(e.a(1), e.a(2)))], group=[('max(a1, a2)', lambda e: max(e.a(1), e.a(2)))]),
     'join': Q(items=[fa(1), fb(2)], join=join('JOIN')),
+    'avgstr': Q(items=[agg('AVG', 'a2', A2), agg('VARIANCE', 'a2', A2, 'variance'), agg('MIN', 'a2', A2, 'Min')]),
     'named': Q(items=[attr('v'), sub('k'), NR], where=("a.v != 1", lambda e: e.an('v') != 1), ha=['k', 'v']),
     'named-swapped': Q(items=[attr('v'), sub('k'), NR], where=("a.v != 1", lambda e: e.an('v') != 1), ha=['v', 'k']),
     'named-update': Q(update=[('a.v', 1, 'a.k', lambda e: e.an('k'))], ha=['k', 'v']),
@@ -77,6 +78,12 @@ def scenario(i, T):
         rbql_engine.set_debug_mode(False)
     elif i == 9:
         qh.run_rbql('select unnest([1, 2]), unnest([3])', qh.copy_table(T))  # double UNNEST error
+    elif i == 15:
+        qh.run_rbql('select AVG(a2), VARIANCE(a1), MEDIAN(a2)', qh.copy_table(T))    # float aggregates over NON-string cells
+    elif i == 13:
+        qh.run_rbql('select a1, 10 // (NR - 2) order by a1', qh.copy_table(T))       # ORDER BY query failing after it has buffered a record
+    elif i == 14:
+        qh.run_rbql('select distinct count a1, 10 // (NR - 3)', qh.copy_table(T))    # DISTINCT COUNT query failing after buffering
     elif i == 10:
         run('named-swapped', T)       # the SAME query text as probe `named`, over a header with the columns in another order
     elif i == 11:
@@ -88,8 +95,13 @@ def scenario(i, T):
 
 
 def _history_obl(probe, rows, timeout, nsel=3, first=None, probe_first=True):
-    pa, pb, po, texpr = qh.table_params('a', ['kk'] * (rows - 1), krange=3)
-    texpr = texpr[:-1] + (', ' if rows > 1 else '') + '[1, 0]]'
+    if probe == 'avgstr':
+        # numeric STRING cells ('7', or the non-numeric 'x', chosen by a symbolic bool): float results are concrete per path
+        pa, pb, po, texpr = qh.table_params('a', ['kp'] * (rows - 1), krange=3)
+        texpr = texpr[:-1] + (', ' if rows > 1 else '') + "[1, '3'], [0, '4']]"
+    else:
+        pa, pb, po, texpr = qh.table_params('a', ['kk'] * (rows - 1), krange=3)
+        texpr = texpr[:-1] + (', ' if rows > 1 else '') + '[1, 0]]'
     sels = [('h%d' % i, 'int') for i in range(nsel)]
     body = indent('''
 T = %s
@@ -102,12 +114,12 @@ for h in [%s]:
 g1, e1 = run(PROBE, T, B)
 return ((g0, g1), (e0, e1))
 ''' % (texpr, ', '.join(n for n, _t in sels)))
-    selpre = ['0 <= %s <= 12' % n for n, _t in sels]
+    selpre = ['0 <= %s <= 15' % n for n, _t in sels]
     if first is not None:
         selpre[0] = 'h0 == %d' % first
     src = harness('PROBE = %r\nPROBE_FIRST = %r\n' % (probe, probe_first), sels + pa, selpre + pb + po, body, extra_defs=HIST_SRC)
     return Obl('history[probe=%s,rows=%d,len=%d%s%s]' % (probe, rows, nsel, (',first=%d' % first) if first is not None else '', '' if probe_first else ',history-first'), src, timeout=timeout,
-               meta={'query': TEXT[probe], 'bounds': 'every history of %d steps over 12 scenarios (+ nothing) x every %d-row table of ints 0..2' % (nsel, rows)})
+               meta={'query': TEXT[probe], 'bounds': 'every history of %d steps over 15 scenarios (+ nothing) x every %d-row table of ints 0..2' % (nsel, rows)})
 
 
 SCHED_SRC = HIST_SRC + '''
@@ -199,17 +211,21 @@ def obligations(tier, seed):
     obs = []
     quick = tier == 'quick'
     t = 200 if quick else 1200
-    probes = ['agg', 'unnest', 'like', 'dcount', 'divide', 'minmax', 'top', 'join'] if quick else list(CASES)
+    probes = ['agg', 'unnest', 'like', 'dcount', 'divide', 'minmax', 'top', 'join', 'sorted', 'avgstr'] if quick else [c for c in CASES if not c.endswith('-swapped')]
     probes = probes + ['named', 'named-update']
     for pi, p in enumerate(probes):
-        for first in range(1, 13):
+        for first in range(1, 16):
             if p.startswith('named') and first not in (10, 11, 12, 1, 7):
                 continue
-            if not p.startswith('named') and first > 9 and quick:
+            if not p.startswith('named') and first in (10, 11, 12):
                 continue
-            if quick and (first + pi + seed) % 3 != 0 and not p.startswith('named'):
+            if first in (13, 14) and p not in ('sorted', 'dcount', 'agg', 'top'):
                 continue
-            pf = not p.startswith('named') and (first + pi) % 2 == 0
+            if (first == 15) != (p == 'avgstr') and (first == 15 or p == 'avgstr') and not (p == 'avgstr' and first in (1, 7)):
+                continue
+            if quick and (first + pi + seed) % 3 != 0 and not p.startswith('named') and first not in (13, 14, 15):
+                continue
+            pf = not p.startswith('named') and p != 'avgstr' and first not in (13, 14) and (first + pi) % 2 == 0
             obs.append(_history_obl(p, 2, t, nsel=2, first=first, probe_first=pf))
             if not quick:
                 obs.append(_history_obl(p, 2, t, nsel=2, first=first, probe_first=not pf))
@@ -218,7 +234,7 @@ def obligations(tier, seed):
     pairs = []
     for i, a in enumerate(kinds):
         for jx, b in enumerate(kinds):
-            if quick and (i * 3 + jx + seed) % 5 != 0 and not (a == 'agg' and b == 'agg') and not (a == 'unnest' and b == 'unnest'):
+            if quick and (i * 3 + jx + seed) % 5 != 0 and not (a == b and a in ('agg', 'unnest', 'sorted', 'dcount')):
                 continue
             pairs.append((a, b))
     for idx, (a, b) in enumerate(pairs):
